@@ -245,7 +245,8 @@ fn flag(a: &[String], name: &str) -> Option<String> {
     a.iter().position(|x| x == name).and_then(|i| a.get(i + 1).cloned())
 }
 fn env_seed() -> u64 {
-    std::env::var("VERIF_SEED").ok().and_then(|s| s.trim().parse::<u64>().ok()).unwrap_or(DEFAULT_SEED)
+    // any integer is accepted (negative and > i64 values wrap into u64); anything else: the fixed default
+    std::env::var("VERIF_SEED").ok().and_then(|s| s.trim().parse::<i128>().ok()).map(|v| v as u64).unwrap_or(DEFAULT_SEED)
 }
 
 fn cmd_replay(a: &[String]) -> i32 {
